@@ -295,6 +295,60 @@ def check_entity(mods, name):
     return fails
 
 
+def elseblock_cases():
+    """Enumerated: the deprecated block <dtml-else NAME>..</dtml-else>
+    directly inside if / in / try / with / let whose own name is equal to,
+    a proper prefix of, an extension of, or unrelated to NAME."""
+    def name(n):
+        return dict(r='name', n=n)
+
+    def eb(n):
+        return dict(k='unless', ref=name(n), as_else=True, eol=['', ''],
+                    body=[dict(k='text', s='E(' + n + ')')])
+    outer = {
+        'if': lambda n, b: dict(k='if', conds=[name(n)], bodies=[b],
+                                eol=['', '', ''], **{'else': None}),
+        'if-else': lambda n, b: dict(k='if', conds=[name(n)], bodies=[b],
+                                     eol=['', '', ''],
+                                     **{'else': [dict(k='text', s='x')]}),
+        'if-elif': lambda n, b: dict(
+            k='if', conds=[name(n), name('ct')],
+            bodies=[b, b + [dict(k='text', s='y')]], eol=['', '', '', ''],
+            **{'else': None}),
+        'in': lambda n, b: dict(k='in', ref=name(n), opts=[], body=b,
+                                eol=['', '', ''], **{'else': None}),
+        'in-opts': lambda n, b: dict(k='in', ref=name(n),
+                                     opts=[['mapping', None], ['size', '2']],
+                                     body=b, eol=['', '', ''],
+                                     **{'else': [dict(k='text', s='z')]}),
+        'try': lambda n, b: dict(k='try', body=b, handlers=[dict(
+            names=[], body=[dict(k='text', s='h')])], eol=['', '', ''],
+            **{'else': None, 'finally': None}),
+        'with': lambda n, b: dict(k='with', ref=name(n), mapping=False,
+                                  only=False, body=b, eol=['', '']),
+        'unless': lambda n, b: dict(k='unless', ref=name(n), body=b,
+                                    eol=['', '']),
+    }
+    pairs = [('va', 'v'), ('va', 'va'), ('v', 'va'), ('va', 'vb'),
+             ('ct', 'c'), ('c', 'ct'), ('s2', 's'), ('s', 's2'), ('s', 's'),
+             ('cf', 'c'), ('vn', 'v')]
+    for kind in sorted(outer):
+        for a, b in pairs:
+            if kind.startswith('in') and not a.startswith('s'):
+                continue
+            if kind == 'with' and a not in ('va', 'v'):
+                continue
+            for style_seed in range(4):
+                ast = [dict(k='text', s='['),
+                       outer[kind](a, [dict(k='text', s='b'), eb(b)]),
+                       dict(k='text', s=']')]
+                yield dict(ast=ast, picks=[1],
+                           styles=[[style_seed, 2, 1, style_seed + 3],
+                                   [style_seed + 1, 0, 3],
+                                   [2, style_seed, 5, 1]],
+                           family='elseblock:%s:%s:%s' % (kind, a, b))
+
+
 def strategy():
     from hypothesis import strategies as st
     return st.fixed_dictionaries(dict(
@@ -308,6 +362,7 @@ def plan(tier, seed):
     shards = [dict(kind='random', seed=seed * 1000 + i, n=n)
               for i in range(15)]
     shards.append(dict(kind='entities'))
+    shards.append(dict(kind='elseblocks'))
     return shards
 
 
@@ -324,6 +379,14 @@ def run_shard(shard):
                              distinct_by_construction=True)
                     for b, msg in check_entity(list(mods), name):
                         acc.fail(b, case, msg)
+        return acc.result()
+    if shard['kind'] == 'elseblocks':
+        for case in elseblock_cases():
+            fails = check(case)
+            acc.case(case, True, klass='elseblock',
+                     distinct_by_construction=True)
+            for b, msg in fails:
+                acc.fail(b, case, msg)
         return acc.result()
     strat = strategy()
 
